@@ -282,6 +282,10 @@ fn cmd_check(args: &Args) -> i32 {
         notes.push(format!("determinism self-check: first {n} runs re-executed on 1 worker, digests identical"));
     }
     let wall = t0.elapsed().as_secs_f64();
+    if agg.counters.get("replay_probe.MISMATCH").copied().unwrap_or(0) > 0 {
+        eprintln!("HARNESS-ERROR: a recorded schedule did not replay to the identical event log ({} of {} probes)", agg.counters["replay_probe.MISMATCH"], agg.counters.get("replay_probe.executions").copied().unwrap_or(0));
+        return 2;
+    }
     for (k, (what, n)) in &agg.known_hits {
         println!("KNOWN-FINDING: property={} {} [{}] (hit {} times)", eng.id(), what, k, n);
     }
